@@ -164,8 +164,12 @@ def run(ctx):
         types = [random_type(ctx.rng) for _ in range(nd)]
         if math.prod(ty_numel(t) for t in types) > 500:
             continue
-        t = random_pt(ctx.rng, types)
-        u = random_pt(ctx.rng, types)
+        # a fifth of the cases: NaN and negative defaults / NaN physical entries ("any default")
+        odd = dict(defaults=[math.nan, -1.0, math.nan, 0.0, -math.inf], special_values=(math.inf, -math.inf, 0.0, math.nan)) if k % 5 == 4 else {}
+        if odd:
+            ctx.count('nan-or-negative-defaults')
+        t = random_pt(ctx.rng, types, **odd)
+        u = random_pt(ctx.rng, types, **odd)
         # representation semantics
         reqs.append(f'C06.dense {ptgen.enc_pt(t)}'); meta.append((dict(pt=ptgen.enc_pt(t)), 'to_dense', t.to_dense()))
         for name, f, g, exact, pre in (U if not ctx.quick else ctx.rng.sample(U, 25)):
